@@ -470,7 +470,7 @@ func init() {
 			}
 		}
 		e := x.c.fresh("errorf", SInt)
-		x.c.assumeHere( localErr(e))
+		x.c.assumeHere(localErr(e))
 		return scInt(e), st
 	})
 	reg("bytes.Compare", "lexicographic comparison of byte strings: result in {-1,0,1} equals lexcmp", func(x *Exec, n *ast.CallExpr, recv ast.Expr, st *State) (Val, *State) {
@@ -510,8 +510,8 @@ func init() {
 		c := x.c
 		s := c.fresh("built", SStr)
 		c.usesStr = true
-		c.assumeHere( tEq(app("slen", s), out.Len))
-		c.assumeHere( tForall([][2]string{{"i!v", SInt}},
+		c.assumeHere(tEq(app("slen", s), out.Len))
+		c.assumeHere(tForall([][2]string{{"i!v", SInt}},
 			tImp(tAnd(tLe("0", "i!v"), tLt("i!v", out.Len)), tEq(app("sat", s, "i!v"), tSel(out.Arr.(Sc).T, tAdd(out.Off, "i!v")))), app("sat", s, "i!v")))
 		return Sc{s, SStr}, st1
 	}
@@ -646,15 +646,15 @@ func init() {
 		d := dv.(Sc).T
 		// e: position of the first delimiter at or after pos, or end
 		e := c.fresh("rs.e", SInt)
-		c.assumeHere( tAnd(tLe(pos, e), tLe(e, end)))
-		c.assumeHere( tForall([][2]string{{"i!r", SInt}}, tImp(tAnd(tLe(pos, "i!r"), tLt("i!r", e)), tNot(tEq(tSel(in, "i!r"), d))), tSel(in, "i!r")))
-		c.assumeHere( tImp(tLt(e, end), tEq(tSel(in, e), d)))
+		c.assumeHere(tAnd(tLe(pos, e), tLe(e, end)))
+		c.assumeHere(tForall([][2]string{{"i!r", SInt}}, tImp(tAnd(tLe(pos, "i!r"), tLt("i!r", e)), tNot(tEq(tSel(in, "i!r"), d))), tSel(in, "i!r")))
+		c.assumeHere(tImp(tLt(e, end), tEq(tSel(in, e), d)))
 		found := tLt(e, end)
 		hi := c.define("rs.hi", SInt, tIte(found, tAdd(e, "1"), end))
 		str := c.fresh("rs.s", SStr)
 		c.usesStr = true
-		c.assumeHere( tEq(app("slen", str), tSub(hi, pos)))
-		c.assumeHere( tForall([][2]string{{"i!r", SInt}}, tImp(tAnd(tLe("0", "i!r"), tLt("i!r", tSub(hi, pos))), tEq(app("sat", str, "i!r"), tSel(in, tAdd(pos, "i!r")))), app("sat", str, "i!r")))
+		c.assumeHere(tEq(app("slen", str), tSub(hi, pos)))
+		c.assumeHere(tForall([][2]string{{"i!r", SInt}}, tImp(tAnd(tLe("0", "i!r"), tLt("i!r", tSub(hi, pos))), tEq(app("sat", str, "i!r"), tSel(in, tAdd(pos, "i!r")))), app("sat", str, "i!r")))
 		faultNow := tAnd(tNot(found), o.F["fault"].(Sc).T, tOr(tNot(o.F["fired"].(Sc).T), o.F["forever"].(Sc).T))
 		er := c.define("rs.err", SInt, tIte(found, errNil, tIte(faultNow, o.F["err"].(Sc).T, errEOF)))
 		no := Obj{o.Kind, map[string]Val{}}
@@ -683,7 +683,7 @@ func init() {
 		has := c.define("hassuf", SBool, tAnd(conds...))
 		cut := x.substr(s, "0", tSub(ln, tInt(int64(len(suf)))))
 		r := c.fresh("trimmed", SStr)
-		c.assumeHere( tAnd(tImp(has, tEq(r, cut)), tImp(tNot(has), tEq(r, s))))
+		c.assumeHere(tAnd(tImp(has, tEq(r, cut)), tImp(tNot(has), tEq(r, s))))
 		return Sc{r, SStr}, st1
 	})
 	reg("strings.Split", "splits s around each instance of the (constant, one-byte) separator c: splitN(s,c) fields, field k = s[splitS(k):splitE(k)], fields separated by single c bytes, none containing c, covering s (specs/00base.spec)", func(x *Exec, n *ast.CallExpr, recv ast.Expr, st *State) (Val, *State) {
@@ -723,7 +723,7 @@ func init() {
 		no.F["pos"] = scInt(c.define("urpos", SInt, tIte(can, tSub(o.F["pos"].(Sc).T, "1"), o.F["pos"].(Sc).T)))
 		no.F["canUnread"] = scBool(tFalse)
 		e := c.fresh("urerr", SInt)
-		c.assumeHere( tAnd(tImp(can, tEq(e, "0")), tImp(tNot(can), tGt(e, "2"))))
+		c.assumeHere(tAnd(tImp(can, tEq(e, "0")), tImp(tNot(can), tGt(e, "2"))))
 		return scInt(e), x.assignBack(recv, no, st1)
 	})
 	reg("bufio.NewScanner", "line scanner (ScanLines) over the reader: its line sequence is a function of the reader", func(x *Exec, n *ast.CallExpr, recv ast.Expr, st *State) (Val, *State) {
@@ -872,7 +872,7 @@ func init() {
 		o := openedObj(c, p)
 		fails := app("aio!fails", p)
 		e := c.fresh("openerr", SInt)
-		c.assumeHere( tAnd(tImp(fails, ioErr(e)), tImp(tNot(fails), tEq(e, "0"))))
+		c.assumeHere(tAnd(tImp(fails, ioErr(e)), tImp(tNot(fails), tEq(e, "0"))))
 		return Tup{[]Val{o, scInt(e)}}, st1
 	})
 	reg("strconv.Itoa", "itoa: the decimal rendering of an int (what %v / %d print); inverse of Atoi", func(x *Exec, n *ast.CallExpr, recv ast.Expr, st *State) (Val, *State) {
@@ -890,7 +890,7 @@ func init() {
 		s := sv.(Sc).T
 		ok := app("atoiOK", s)
 		e := c.fresh("atoierr", SInt)
-		c.assumeHere( tAnd(tImp(ok, tEq(e, "0")), tImp(tNot(ok), localErr(e))))
+		c.assumeHere(tAnd(tImp(ok, tEq(e, "0")), tImp(tNot(ok), localErr(e))))
 		// on failure the value is 0 for syntax errors but the clamped extreme for range errors: unspecified here
 		v := c.fresh("atoiv", SInt)
 		c.assumeHere(tAnd(tImp(ok, tEq(v, app("atoi", s))), tLe("(- 9223372036854775808)", v), tLe(v, "9223372036854775807")))
@@ -924,9 +924,9 @@ func parseExtern(name, doc, okFn, valFn, valSort string) {
 		s := sv.(Sc).T
 		ok := app(okFn, s)
 		e := c.fresh("perr", SInt)
-		c.assumeHere( tAnd(tImp(ok, tEq(e, "0")), tImp(tNot(ok), localErr(e))))
+		c.assumeHere(tAnd(tImp(ok, tEq(e, "0")), tImp(tNot(ok), localErr(e))))
 		v := c.fresh("pval", valSort)
-		c.assumeHere( tImp(ok, tEq(v, app(valFn, s))))
+		c.assumeHere(tImp(ok, tEq(v, app(valFn, s))))
 		return Tup{[]Val{Sc{v, valSort}, scInt(e)}}, st1
 	})
 }
@@ -952,7 +952,7 @@ func (x *Exec) strAsSeq(s string) Sl {
 	arr := c.fresh("sbytes", arrSort(SInt, SInt))
 	c.strLits[key] = arr
 	c.usesStr = true
-	c.assumeDef( tForall([][2]string{{"i!v", SInt}}, tEq(tSel(arr, "i!v"), app("sat", s, "i!v")), tSel(arr, "i!v")))
+	c.assumeDef(tForall([][2]string{{"i!v", SInt}}, tEq(tSel(arr, "i!v"), app("sat", s, "i!v")), tSel(arr, "i!v")))
 	return Sl{Sc{arr, arrSort(SInt, SInt)}, "0", app("slen", s), tFalse, types.Typ[types.Uint8]}
 }
 
@@ -1083,12 +1083,12 @@ func (x *Exec) fprintf(n *ast.CallExpr, st *State, mode string) (Val, *State) {
 		// nondeterministic failure: a prefix of the rendering is appended
 		fail := c.fresh("wfail", SBool)
 		part := c.freshSeq("partial")
-		c.assumeDef( tAnd(tLe(out.Len, part.Len), tLe(part.Len, full.Len)))
-		c.assumeDef( tForall([][2]string{{"i!w", SInt}}, tImp(tAnd(tLe("0", "i!w"), tLt("i!w", part.Len)),
+		c.assumeDef(tAnd(tLe(out.Len, part.Len), tLe(part.Len, full.Len)))
+		c.assumeDef(tForall([][2]string{{"i!w", SInt}}, tImp(tAnd(tLe("0", "i!w"), tLt("i!w", part.Len)),
 			tEq(tSel(part.Arr.(Sc).T, "i!w"), tSel(full.Arr.(Sc).T, tAdd(full.Off, "i!w")))), tSel(part.Arr.(Sc).T, "i!w")))
 		res := c.freshSeq("wout")
-		c.assumeDef( tImp(fail, tAnd(tEq(res.Len, part.Len), tEq(res.Arr.(Sc).T, part.Arr.(Sc).T))))
-		c.assumeDef( tImp(tNot(fail), tAnd(tEq(res.Len, full.Len),
+		c.assumeDef(tImp(fail, tAnd(tEq(res.Len, part.Len), tEq(res.Arr.(Sc).T, part.Arr.(Sc).T))))
+		c.assumeDef(tImp(tNot(fail), tAnd(tEq(res.Len, full.Len),
 			tForall([][2]string{{"i!w", SInt}}, tImp(tAnd(tLe("0", "i!w"), tLt("i!w", full.Len)),
 				tEq(tSel(res.Arr.(Sc).T, "i!w"), tSel(full.Arr.(Sc).T, tAdd(full.Off, "i!w")))), tSel(res.Arr.(Sc).T, "i!w")))))
 		// shortcut (implied by the facts above): whatever happens, the old output is a prefix of the new one
@@ -1098,7 +1098,7 @@ func (x *Exec) fprintf(n *ast.CallExpr, st *State, mode string) (Val, *State) {
 		no.F["out"] = res
 		no.F["failed"] = scBool(tOr(w.F["failed"].(Sc).T, fail))
 		e := c.fresh("werr", SInt)
-		c.assumeDef( tAnd(tImp(fail, ioErr(e)), tImp(tNot(fail), tEq(e, "0"))))
+		c.assumeDef(tAnd(tImp(fail, ioErr(e)), tImp(tNot(fail), tEq(e, "0"))))
 		errT = e
 	} else {
 		no.F["out"] = full
